@@ -64,7 +64,8 @@ Value& MODExpression::value(Context & ctx) const
     case Type::INTEGER:
       if (*a1.integer() == 0)
         throw RuntimeError(EXC_RT_DIVIDE_BY_ZERO);
-      v = Value(Integer(*a0.integer() % *a1.integer()));
+      /* INT64_MIN % -1 overflows (traps): any integer modulo -1 is 0 */
+      v = Value(*a1.integer() == -1 ? Integer(0) : Integer(*a0.integer() % *a1.integer()));
       break;
     case Type::NUMERIC:
       if (*a1.numeric() == 0.0)
